@@ -205,7 +205,7 @@ CHECKS = {'C10': {'level': 'other',
                       'programs, size probes',
          'text': 'All statement shapes of nesting depth <= 2 over pop / empty Seq / If / While / For / Cond / Break / Continue, as first statement and after a statement, at several versions with the '
                  'optimiser on and off, must compile to TEAL (and behave as described) or raise a PyTeal error; plus generated programs and long / deeply nested probes. Exploration, not proof. '
-                 'Bounded additions: shared Expr objects, template constants with assembled constants, full slot occupancy, 63 builder-misuse probes (compilation of whatever the constructors accept '
+                 'Bounded additions: shared Expr objects, template constants with assembled constants, full slot occupancy, recursive routines of arity 0..3 at versions 4..10 (the recursion spill pass, executed), 63 builder-misuse probes (compilation of whatever the constructors accept '
                  'gives TEAL or a PyTeal error).',
          'note': 'only flattenBlocks is under contract; NormalizeBlocks / addIncoming / validateTree / sortBlocks are explored exhaustively on small graphs (bounded). Three defects found here were '
                  'repaired (fix: commits); recursion depth on long programs is a known finding.',
